@@ -4344,6 +4344,11 @@ func (p *Parser) parseAlterSequence(pos token.Pos) *ast.AlterSequence {
 		options = p.parseOptions()
 	}
 
+	var restartCounterWith *ast.RestartCounterWith
+	if p.Token.IsKeywordLike("RESTART") {
+		restartCounterWith = p.parseRestartCounterWith()
+	}
+
 	var skipRange *ast.SkipRange
 	if p.Token.IsKeywordLike("SKIP") {
 		skipRange = p.parseSkipRange()
@@ -4352,11 +4357,6 @@ func (p *Parser) parseAlterSequence(pos token.Pos) *ast.AlterSequence {
 	var noSkipRange *ast.NoSkipRange
 	if p.Token.Kind == "NO" {
 		noSkipRange = p.parseNoSkipRange()
-	}
-
-	var restartCounterWith *ast.RestartCounterWith
-	if p.Token.IsKeywordLike("RESTART") {
-		restartCounterWith = p.parseRestartCounterWith()
 	}
 
 	return &ast.AlterSequence{
